@@ -524,3 +524,139 @@ def check_fresh_rows_not_read(res, db, lcs) -> int:
     n += 1
     res.ob(True, f"{lc.name}|allocates-rows|reads-own-fresh-cells={k_reads}")
   return n
+
+
+# ------------------------------------------------------------------------------------------------ R-LIVE.9
+def _guard_arrays(lc, a, want_zero: bool):
+  """Schema keys X such that the access sits under `X[tid0] == 0` (want_zero) / `X[tid0] != 0` (not want_zero)."""
+  from ..terms import T, pc_literals
+  from .world import array_key
+
+  out = set()
+  for t, pol in pc_literals(a.pc):
+    if not (isinstance(t, T) and t.op == "cmp" and t.args[0] in ("==", "!=")):
+      continue
+    x, y = t.args[1], t.args[2]
+    if isinstance(y, T) and y.op == "ld":
+      x, y = y, x
+    if not (isinstance(x, T) and x.op == "ld" and len(x.args) == 2 and x.args[1] is T("tid", 0) and isinstance(y, T) and y.op == "c" and y.args[0] == 0):
+      continue
+    is_zero = (t.args[0] == "==") == bool(pol)
+    if is_zero != want_zero:
+      continue
+    hv = lc.binding.get(x.args[0].split(".")[0])
+    from .. import effects
+
+    keys = effects._keys(hv) if hv is not None else []
+    if not keys:
+      k = array_key(lc, x.args[0])
+      keys = [k] if k else []
+    out.update(keys)
+  return out
+
+
+def check_guard_complements(res, db, entries, fields=None) -> int:
+  """R-LIVE.9: a kernel that (re)defines a per-world output at the thread's own cell but returns early for worlds whose
+  counter X is zero (`if X[worldid] == 0: return`) leaves those worlds' cells untouched. When the tree has a *complement
+  writer* - a kernel storing the same field under `X[worldid] == 0`, switched on by a factory flag - the two form one
+  definition of the field, and the flag must be on wherever the skipping kernel runs: on every host path that launches the
+  skipper on an array, a complement writer must have been launched on the same array earlier on that path with its flag
+  true or equal to a condition of that path. (The flag of `_solve_init_dof(.., sparse)` against the predicate of the
+  sparse `qfrc_constraint` rebuild.)"""
+  from .. import effects
+  from ..hostir import KernelV
+  from ..report import Finding
+  from ..terms import T, pc_literals, subterms
+  from .world import array_key
+
+  def static_lits(lc, a):
+    """closure-flag literals on the access path: [(flag name, polarity)] (terms without loads / thread ids)"""
+    out = []
+    for t, pol in pc_literals(a.pc):
+      if any(s.op in ("ld", "tid", "at", "lv", "carried") for s in subterms(t)):
+        continue
+      out.append((t, pol))
+    return out
+
+  def pname_key(root):
+    from ..db import field_of_param
+
+    f = field_of_param(db.sm, root.split(".")[0])
+    return f"{f.owner}.{f.path}" if f is not None else None
+
+  # complement writers, from the generic evaluation (flags unknown) of every launched kernel
+  comp: Dict[tuple, list] = {}
+  for lc in db.launch_ctxs():
+    ke = db.eval_plain(lc.fi)
+    for a in ke.accesses:
+      if a.kind != "w" or not a.idx or a.idx[0] is not T("tid", 0):
+        continue
+      fk = pname_key(a.root)
+      if not fk or (fields and fk not in fields):
+        continue
+      for t, pol in pc_literals(a.pc):
+        if isinstance(t, T) and t.op == "cmp" and t.args[0] == "==" and pol:
+          x, y = t.args[1], t.args[2]
+          if isinstance(x, T) and x.op == "ld" and len(x.args) == 2 and x.args[1] is T("tid", 0) and isinstance(y, T) and y.op == "c" and y.args[0] == 0:
+            gk = pname_key(x.args[0])
+            flags = [(s, p) for s, p in static_lits(lc, a)]
+            if gk and flags:
+              comp.setdefault((fk, gk), []).append((lc.fi.key, a.root, x.args[0]))
+  n = 0
+  seen = set()
+  for entry in entries:
+    hi = db.trace(entry)
+    effs = [e for e in effects.trace_effects(db, hi) if e.ev.kind == "launch" and e.lc is not None]
+    for j, e in enumerate(effs):
+      lc = e.lc
+      for a in lc.keval.accesses:
+        if a.kind != "w" or not a.idx or a.idx[0] is not T("tid", 0):
+          continue
+        hv = lc.binding.get(a.root.split(".")[0])
+        fkeys = effects._keys(hv) if hv is not None else []
+        fk = pname_key(a.root)
+        for gk in sorted(_guard_arrays(lc, a, want_zero=False)):
+          for (cf, cg), writers in comp.items():
+            if cg != gk or cf != fk:
+              continue
+            sig = (lc.name, tuple(fkeys), gk, tuple(e.ev.pc))
+            if sig in seen:
+              continue
+            seen.add(sig)
+            n += 1
+            ok = False
+            for i in range(j):
+              w = effs[i]
+              if w.lc.name not in {k for k, _, _ in writers} or effects.contradictory(w.ev.pc, e.ev.pc):
+                continue
+              for b in w.lc.keval.accesses:
+                if b.kind != "w" or pname_key(b.root) != fk:
+                  continue
+                whv = w.lc.binding.get(b.root.split(".")[0])
+                if set(effects._keys(whv) if whv is not None else []) != set(fkeys):
+                  continue
+                if gk not in _guard_arrays(w.lc, b, want_zero=True):
+                  continue
+                # residual flag literals: each is a closure value text that must hold on the skipper's path
+                good = True
+                for t, pol in static_lits(w.lc, b):
+                  txt = t.args[0].split("=", 1)[1] if t.op == "cv" and "=" in str(t.args[0]) else None
+                  if txt is None:
+                    continue
+                  disj = [x.strip("() ") for x in txt.split(" or ")]
+                  if not any((d, pol) in set(e.ev.pc) or (f"({d})", pol) in set(e.ev.pc) for d in disj):
+                    good = False
+                if good:
+                  ok = True
+            res.ob(
+              ok,
+              f"{lc.name}|{fk}|{gk}|complement|{len(seen)}",
+              Finding(
+                "R-LIVE.9",
+                f"{lc.name}|{fk}|{gk}|complement-writer-not-enabled",
+                f"{lc.name} rebuilds {fk} but skips worlds with {gk} == 0; the tree's complement writer ({', '.join(sorted({k for k, _, _ in writers}))}, which stores {fk} under {gk} == 0 when its factory flag is set) is not enabled on this host path [{'; '.join(f'{t}={p}' for t, p in e.ev.pc[-3:])}]: those worlds keep the {fk} of an earlier call",
+                e.ev.loc,
+              ),
+              sample={"skipper": lc.name, "field": fk, "counter": gk, "complement_writers": sorted({k for k, _, _ in writers})} if n <= 3 else None,
+            )
+  return n
